@@ -963,6 +963,11 @@ func (r *Runner) stepMultipart(op Op) []Disc {
 			}
 			return nil
 		}
+		if mb := m.bucket(u.B); m.Hier && mb != nil && mb.Conflicts(u.Key) {
+			// outside the file system backends' key domain while the other key is live: refused,
+			// nothing stored, the upload stays pending
+			return expectRefused(resp, "complete of an upload whose key collides with a live key's file or directory")
+		}
 		if d := expectStatus(resp, 200, "complete upload"); d != nil {
 			return d
 		}
